@@ -139,6 +139,19 @@ def h2fpRun (useSpec : Bool) (toks : List String) : Option String := do
   out := out.push ("final:" ++ toHex (eval hist.toList))
   some (" ".intercalate out.toList)
 
+/-- C16 oracle: the counter vector the property demands for a batch of connections -/
+def metricsSpec (toks : List String) : Option String := do
+  let kinds := (← kv toks "conns").splitOn ","
+  let label := fun (k : String) => match k with
+    | "h2" | "abort-after-h2" => "1/h2"
+    | "h1" | "abort-after-h1" => "1/http/1.1"
+    | "noalpn" => "1/"
+    | _ => "0/"
+  let labels := kinds.map label
+  let keys := ["0/", "1/", "1/h2", "1/http/1.1"].filter fun k => labels.contains k
+  let parts := keys.map fun k => s!"{k}={labels.count k}"
+  pure (s!"accepted={kinds.length} closed={kinds.length} " ++ " ".intercalate parts)
+
 def handle (cmd : String) (args : List String) : String :=
   match cmd, args with
   | "ser", toks =>
@@ -191,6 +204,8 @@ def handle (cmd : String) (args : List String) : String :=
     match parseHello toks with
     | some h => s!"ok a={toHex (Fp.Spec.JA4.partA h)} b=sha12of:{toHex (Fp.Spec.JA4.partBInput h)} c=sha12of:{toHex (Fp.Spec.JA4.partCInput h)}"
     | none => "bad-op"
+  | "survive", _ => "alive=1 control=ok"   -- C10: the process survives and other connections are served
+  | "metrics", toks => (metricsSpec toks).getD "bad-op"
   | "e2e", toks => (e2eExpected toks).getD "bad-op"
   | "rw", toks => (rwModel toks).getD "bad-op"
   | "rwspec05", toks => (rwSpec05 toks).getD "bad-op"
